@@ -8,6 +8,7 @@ interpolation weights).  Assumed contracts of linear_operator primitives appear 
 -/
 import GPVerif.Bridge.Structured
 import GPVerif.Bridge.Interp
+import GPVerif.Gen.StructuredAlgebra
 import Mathlib.Data.Rat.Floor
 
 open Matrix Structured Structured.Bridge Gen.Interp Interp Interp.Bridge
@@ -631,6 +632,141 @@ theorem interp_convergence_partial (g : ℕ → α) (delta x : α) (a b c : α) 
   exact sub_self _
 
 end keys
+
+
+/-! ## the REGENERATED strategy algebra (`Gen/StructuredAlgebra.lean`, translator G7) equals the model
+
+Every definition below `Gen.StructuredAlgebra.*` is produced from the Python AST on each run; these theorems are what
+ties the hand-written `Structured.*` model (about which everything above is proved) to the current source. -/
+
+section generated
+open Gen.StructuredAlgebra
+
+
+section
+variable [Field α] {n m ns k g : ℕ}
+
+theorem gen_sgpr_cache_eq_model (P : Prim α) (Rx : DMat n m α) (d : Fin n → α) :
+    sgprCovarCache P Rx d
+      = sgprCache Rx (sgprInverse Rx (fun i => (d i)⁻¹)
+          (P.cholLInv (sgprCapacitance Rx (fun i => (d i)⁻¹))).transpose) := by
+  have hcap : ((Rx.transpose.mul ((DMat.diagonal (fun i => (d i)⁻¹)).mul Rx)).add (DMat.one.smul (1 : α)))
+      = sgprCapacitance Rx (fun i => (d i)⁻¹) := by
+    apply DMat.toMatrix_injective
+    simp [sgprCapacitance, add_comm]
+  apply DMat.toMatrix_injective
+  simp only [sgprCovarCache, hcap, sgprCache, sgprInverse, DMat.toMatrix_mul, DMat.toMatrix_add, DMat.toMatrix_neg,
+    DMat.toMatrix_transpose, DMat.toMatrix_diagonal, Matrix.transpose_mul, Matrix.transpose_transpose,
+    Matrix.diagonal_transpose, Matrix.mul_assoc]
+
+theorem gen_sgpr_pred_covar_eq_model (Kss : DMat ns ns α) (L : DMat ns m α) (Rt : DMat m n α) (cache : DMat m m α) :
+    sgprPredictiveCovar Kss L Rt cache = sgprPredCovar Kss L cache := rfl
+
+theorem gen_default_mean_eq_model (P : Prim α) (A : DMat n n α) (y mu : DMat n 1 α) (Ksx : DMat ns n α) (tm : DMat ns 1 α) :
+    defaultPredictiveMean Ksx (defaultMeanCache P A y mu) tm = (condMean Ksx (P.inv A) (y.sub mu)).add tm := rfl
+
+theorem gen_rff_cache_eq_model (P : Prim α) (c : α) (F : DMat n k α) (A : DMat n n α) (Fs : DMat ns k α) (cache : DMat k k α) :
+    rffInnerTerm P c F A = rffInner c F (P.inv A) ∧
+    rffCovarCache P c F A = P.cholL (rffInner c F (P.inv A)) ∧
+    rffPredictiveCovar P c Fs cache = rffPredCovar (P.sqrt c) Fs cache := ⟨rfl, rfl, rfl⟩
+
+theorem gen_interp_caches_eq_model (P : Prim α) (Kuu : DMat g g α) (W : DMat n g α) (Ws : DMat ns g α) (S : DMat n k α)
+    (A : DMat n n α) (y mu : DMat n 1 α) (cache : DMat g k α) (mc : DMat g 1 α) (tm : DMat ns 1 α) (Kss : DMat ns ns α)
+    (root : DMat ns k α) :
+    interpInvQuadFormCache Kuu W Ws S = interpCovarCache Kuu W S ∧
+    interpInvQuadFormRoot Kuu W Ws cache = interpApply Ws cache ∧
+    Gen.StructuredAlgebra.interpMeanCache P Kuu W A y mu = Structured.interpMeanCache Kuu W (P.inv A) (y.sub mu) ∧
+    interpPredictiveMean Kuu W Ws mc tm = (interpApply Ws mc).add tm ∧
+    (interpPredictiveCovarFast Kss root).toMatrix = (Kss.sub (lowRank root)).toMatrix ∧
+    (interpInside Kuu cache).toMatrix = Kuu.toMatrix - cache.toMatrix * cache.toMatrixᵀ := by
+  refine ⟨rfl, rfl, rfl, rfl, ?_, ?_⟩
+  · simp [interpPredictiveCovarFast, lowRank, sub_eq_add_neg]
+  · simp [interpInside, sub_eq_add_neg]
+end
+
+section
+variable [Field α] [LinearOrder α] {n m ns : ℕ}
+
+theorem gen_nystrom_eq_model (training corr : Bool) (kdiag : Fin n → α) (Kxz : DMat n m α) (Ksz : DMat ns m α) (R : DMat m m α) :
+    getCovarianceSame training corr kdiag Kxz R
+      = (if training then lowRank (nystromRoot Kxz R) else nystromEval corr kdiag Kxz R) ∧
+    getCovarianceCross Ksz Kxz R = nystromCross Ksz Kxz R := by
+  refine ⟨?_, rfl⟩
+  cases training <;> cases corr <;> rfl
+
+/-- the finding, as a fact about generated code -/
+theorem gen_diag_correction_applied_to_train_block (kdiag : Fin n → α) (Kxz : DMat n m α) (R : DMat m m α) :
+    (getCovarianceSame false true kdiag Kxz R).toMatrix
+      = (lowRank (nystromRoot Kxz R)).toMatrix
+        + Matrix.diagonal (fun i => max 0 (kdiag i - (lowRank (nystromRoot Kxz R)).diag i)) := by
+  rw [(gen_nystrom_eq_model false true kdiag Kxz Kxz R).1]
+  simp [nystromEval, diagCorrection]
+end
+
+theorem gen_kron_order_multitask [Mul α] {n m t s : ℕ} (Kx : DMat n m α) (Kt : DMat t s α)
+    (i : Fin n) (a : Fin t) (j : Fin m) (b : Fin s) (hp : i.1 * t + a.1 < n * t) (hq : j.1 * s + b.1 < m * s) :
+    multitaskForward Kx Kt = kron Kx Kt ∧
+    (multitaskForward Kx Kt).toMatrix ⟨i.1 * t + a.1, hp⟩ ⟨j.1 * s + b.1, hq⟩ = Kx.toMatrix i j * Kt.toMatrix a b :=
+  ⟨rfl, kron_interleaved_entry Kx Kt i a j b hp hq⟩
+
+theorem gen_lcm_eq_model [Mul α] [Add α] {n m t s : ℕ} (hd : DMat n m α × DMat t s α) (tl : List (DMat n m α × DMat t s α)) :
+    lcmForward hd tl = lcmKernel hd tl := rfl
+
+theorem gen_index_eq_model [Mul α] [AddCommMonoid α] {n m t r : ℕ} (F : DMat t r α) (v : Fin t → α) (i1 : Fin n → Fin t) (i2 : Fin m → Fin t) :
+    indexForward (indexCovarMatrix F v) i1 i2 = indexGather (indexCovar F v) i1 i2 := rfl
+
+theorem gen_added_loss_eq_titsias_term [Field α] {n : ℕ} (kdiag qdiag noise : Fin n → α) (σ2 : α) :
+    addedLoss kdiag qdiag noise = titsiasAddedLoss kdiag qdiag noise ∧
+    addedLoss kdiag qdiag (fun _ => σ2) = -((∑ i, (kdiag i - qdiag i)) / (2 * σ2)) := by
+  refine ⟨rfl, ?_⟩
+  simp only [addedLoss, div_eq_mul_inv, ← Finset.sum_mul]
+  ring
+
+
+theorem indexCoeff_eq_prod (sizes : List ℕ) (k : ℕ) : Gen.Interp.indexCoeff sizes k = (sizes.drop (k + 1)).prod := by
+  simp [Gen.Interp.indexCoeff, List.prod_eq_foldl]
+
+/-- the interpolation's flat grid index `Σ_k idx_k · index_coeff_k` is the row-major position -/
+theorem rowMajorFlat_eq_index_coeff_sum : ∀ (sizes is : List ℕ), is.length = sizes.length →
+    rowMajorFlat sizes is = ((List.range is.length).map fun k => is.getD k 0 * Gen.Interp.indexCoeff sizes k).sum
+  | [], [], _ => by simp [rowMajorFlat]
+  | [], _ :: _, h => by simp at h
+  | _ :: _, [], h => by simp at h
+  | n :: ns, i :: is, h => by
+      have h' : is.length = ns.length := by simpa using h
+      have ih := rowMajorFlat_eq_index_coeff_sum ns is h'
+      simp only [rowMajorFlat, List.length_cons, List.range_succ_eq_map, List.map_cons, List.sum_cons, List.map_map,
+        List.getD_cons_zero, indexCoeff_eq_prod, List.drop_succ_cons, List.drop_zero]
+      rw [ih]
+      congr 1
+      simp only [indexCoeff_eq_prod]
+      congr 1
+
+theorem gen_kron_order_grid_matches_interp_index [CommMonoid α] [Zero α] (Ks : List (Sq α)) (is js : List ℕ)
+    (hi : List.Forall₂ (fun i (K : Sq α) => i < K.1) is Ks) (hj : List.Forall₂ (fun j (K : Sq α) => j < K.1) js Ks) :
+    gridForward true Ks = gridKronRowMajor Ks ∧
+    (gridForward true Ks).get
+        (((List.range is.length).map fun k => is.getD k 0 * Gen.Interp.indexCoeff (Ks.map (·.1)) k).sum)
+        (((List.range js.length).map fun k => js.getD k 0 * Gen.Interp.indexCoeff (Ks.map (·.1)) k).sum)
+      = gridProd Ks is js := by
+  have e : gridForward true Ks = gridKronRowMajor Ks := by simp [gridForward, kroneckerOrder, kronList]
+  refine ⟨e, ?_⟩
+  rw [e, ← rowMajorFlat_eq_index_coeff_sum _ _ (by simpa using hi.length_eq),
+    ← rowMajorFlat_eq_index_coeff_sum _ _ (by simpa using hj.length_eq)]
+  exact grid_kron_row_major_order Ks is js hi hj
+
+section
+variable [Field α] {m : ℕ}
+
+theorem gen_inducing_inv_root_contract (P : Prim α) (Kzz : DMat m m α) (U : Matrix (Fin m) (Fin m) α)
+    (hU : Uᵀ * U = Kzz.toMatrix) (hP : (P.cholUInv Kzz).toMatrix = U⁻¹) :
+    (inducingInvRoot P Kzz).toMatrix * (inducingInvRoot P Kzz).toMatrixᵀ = Kzz.toMatrix⁻¹ := by
+  simp only [inducingInvRoot, DMat.toMatrix_mul, DMat.toMatrix_one, Matrix.mul_one, hP]
+  rw [← hU, Matrix.mul_inv_rev, Matrix.transpose_nonsing_inv]
+
+end
+
+end generated
 
 /-! ## non-vacuity: every hypothesis bundle above is satisfiable (1×1 rational instances) -/
 
